@@ -10,12 +10,13 @@
   * `emit fx f` = `convert_to_schema(f)`; `fx = false` is typedpy's dialect (`multiplesOf`,
     list-valued `not`), `fx = true` the same emission with the two draft-4 spellings.
     `dialectFix` is the schema-position-aware two-rule rewrite the property statement allows;
-    `Lemmas/Schema.lean` proves `dialectFix (emit false f) = emit true f`.
+    `Lemmas/SchemaDialect.lean` proves `dialectFix (emit false f) = emit true f` for every
+    declaration.
   * `raises f` = the mapping raises (`NotImplementedError` for Deque / Anything / NoneField,
     `TypeError` for a non-String map key or a non-scalar enum literal).
   * `defsAcc` threads the `definitions_schema` dict in the code's write order
     (`definitions[name] = …` after the nested call).
-  Key-renaming serialization mappers are not modelled here (mapper-free classes).
+  A key-renaming serialization mapper is modelled at the top-level class only (`classSchemaM`).
 -/
 import TypedpyModel.Core.Field
 namespace Typedpy.Sch
@@ -311,6 +312,66 @@ def classSchema (fx : Bool) : FieldDecl → PyVal
   | .struct c fields defaults => structShape c defaults (emitP fx fields)
   | _ => .none
 
+/-! ### a key-renaming `_serialization_mapper` on the top-level class
+
+  `km` is the string-valued part of the aggregated mapper restricted to renames of the class's own
+  keys (`mapper[key]` when it is a `str`): for one dict mapper `d` that is `d.get(key, key)`
+  (Sem/Mappers.lean proves the aggregate pointwise for mapper lists).  `<field>._mapper` entries,
+  `DoNotSerialize`, `FunctionCall`, `Constant` and the case converters are not modelled here. -/
+
+abbrev KeyMap := List (String × String)
+
+/-- `mapper[key] if key in mapper and isinstance(mapper[key], str) else key` -/
+def mapName (km : KeyMap) (n : String) : String := (lookup n km).getD n
+
+/-- `required[required.index(a)] = b` -/
+def replaceFirst (a b : String) : List String → List String
+  | [] => []
+  | x :: xs => if x == a then b :: xs else x :: replaceFirst a b xs
+
+/-- the `required` list after `_generate_schema_for_fields_internal`: the code renames IN PLACE while
+    it walks the fields (`if key in required: required[required.index(key)] = mapped_key`), so a name
+    written for an earlier field is renamed again when a later field has that name; a field with a
+    default is appended under its mapped key -/
+def requiredM (km : KeyMap) (defaults : List (String × PyVal)) : List String → List String → List String
+  | [], req => req
+  | n :: ns, req =>
+    let req1 := replaceFirst n (mapName km n) req
+    let req2 := if (lookup n defaults).isSome && !req1.contains (mapName km n) then req1 ++ [mapName km n] else req1
+    requiredM km defaults ns req2
+
+/-- `properties[mapped_key] = sub_schema`, one entry per field (mapped keys that collide overwrite
+    each other in the code: outside the model, the correspondence run skips such classes) -/
+def propsOfM (km : KeyMap) (defaults : List (String × PyVal)) : List (String × PyVal) → List (PyVal × PyVal)
+  | [] => []
+  | (n, s) :: rest => kw (mapName km n) (addDefault s (lookup n defaults)) :: propsOfM km defaults rest
+
+def classObjM (km : KeyMap) (c : ClassOpts) (defaults : List (String × PyVal)) (fields : List (String × PyVal)) : PyVal :=
+  .dict [kw "type" (.str "object"),
+         kw "properties" (.dict (propsOfM km defaults fields)),
+         kw "required" (.list ((requiredM km defaults (fields.map (·.1)) c.required).map PyVal.str)),
+         kw "additionalProperties" (.bool c.addl)]
+
+/-- `structure_to_schema(cls, {})[0]` for a class with key map `km` (the field-wrapper form does not
+    look at the mapper) -/
+def classSchemaM (fx : Bool) (km : KeyMap) : FieldDecl → PyVal
+  | .struct c fields defaults =>
+    if collapses c (fields.map (·.1)) then
+      (match emitP fx fields with
+       | (_, s) :: _ => s
+       | [] => .none)
+    else classObjM km c defaults (emitP fx fields)
+  | _ => .none
+
+/-- `serialize_internal` with the key map: every attribute under its mapped key -/
+def renameKeys (km : KeyMap) : List (PyVal × PyVal) → List (PyVal × PyVal)
+  | [] => []
+  | (k, v) :: rest => ((match k with | .str n => PyVal.str (mapName km n) | o => o), v) :: renameKeys km rest
+
+def renameDoc (km : KeyMap) : PyVal → PyVal
+  | .dict kvs => .dict (renameKeys km kvs)
+  | o => o
+
 abbrev Defs := List (String × PyVal)
 
 mutual
@@ -359,35 +420,41 @@ def dialectFix : PyVal → PyVal
   | .dict kvs => .dict (fixKws kvs)
   | other => other
 termination_by structural s => s
-/-- the keywords of one schema object -/
+/-- the keywords of one schema object (the keyword value is rewritten by a per-position function, so
+    that every equation of `fixKws` is unconditional) -/
 def fixKws : List (PyVal × PyVal) → List (PyVal × PyVal)
   | [] => []
   | (k, v) :: rest =>
     (if keyIs "multiplesOf" k then (PyVal.str "multipleOf", v)
-     else if keyIs "not" k then
-       (k, match v with
-           | .list ss => .dict [kw "anyOf" (.list (fixList ss))]
-           | .dict kvs => .dict (fixKws kvs)
-           | other => other)
-     else if keyIs "items" k then
-       (k, match v with
-           | .list ss => .list (fixList ss)
-           | .dict kvs => .dict (fixKws kvs)
-           | other => other)
-     else if keyIs "allOf" k || keyIs "anyOf" k || keyIs "oneOf" k then
-       (k, match v with
-           | .list ss => .list (fixList ss)
-           | other => other)
-     else if keyIs "properties" k || keyIs "patternProperties" k || keyIs "definitions" k then
-       (k, match v with
-           | .dict ps => .dict (fixProps ps)
-           | other => other)
-     else if keyIs "additionalProperties" k || keyIs "additionalItems" k then
-       (k, match v with
-           | .dict kvs => .dict (fixKws kvs)
-           | other => other)
+     else if keyIs "not" k then (k, fixNotV v)
+     else if keyIs "items" k then (k, fixItemsV v)
+     else if keyIs "allOf" k || keyIs "anyOf" k || keyIs "oneOf" k then (k, fixListV v)
+     else if keyIs "properties" k || keyIs "patternProperties" k || keyIs "definitions" k then (k, fixPropsV v)
+     else if keyIs "additionalProperties" k || keyIs "additionalItems" k then (k, dialectFix v)
      else (k, v)) :: fixKws rest
 termination_by structural kvs => kvs
+/-- the value of `not`: typedpy's list becomes `{anyOf: [...]}` -/
+def fixNotV : PyVal → PyVal
+  | .list ss => .dict [kw "anyOf" (.list (fixList ss))]
+  | .dict kvs => .dict (fixKws kvs)
+  | other => other
+termination_by structural v => v
+/-- the value of `items`: one schema or a list of schemas -/
+def fixItemsV : PyVal → PyVal
+  | .list ss => .list (fixList ss)
+  | .dict kvs => .dict (fixKws kvs)
+  | other => other
+termination_by structural v => v
+/-- the value of `allOf` / `anyOf` / `oneOf` -/
+def fixListV : PyVal → PyVal
+  | .list ss => .list (fixList ss)
+  | other => other
+termination_by structural v => v
+/-- the value of `properties` / `patternProperties` / `definitions` -/
+def fixPropsV : PyVal → PyVal
+  | .dict ps => .dict (fixProps ps)
+  | other => other
+termination_by structural v => v
 def fixList : List PyVal → List PyVal
   | [] => []
   | s :: ss => dialectFix s :: fixList ss
